@@ -10,7 +10,7 @@ THEOREMS = ["Output.url_resolves_iff", "Output.url_resolves_iff_visible", "Outpu
             "Output.member_anchor_exists", "Output.links_resolve", "Output.shorten_resolves", "Output.ctx_ok",
             "Output.visible_reachable", "Output.superseded_invisible", "Output.superseded_not_reachable",
             "Output.inside_superseded_not_reachable", "Output.mem_reached_iff", "Output.origin", "Output.mem_emits",
-            "Output.links_resolve_partial", "Output.valXref_ctxOk", "Output.links_resolve_counterexample_value",
+            "Output.links_resolve_counterexample_value_old", "Output.index_page_counterexample_old",
             "Output.links_resolve_counterexample_superseded_old", "Output.links_resolve_counterexample_hidden_old",
             "Output.links_resolve_counterexample_context_old", "Output.inhierarchy_counterexample_old",
             "Output.inhierarchy_counterexample_collision_old"]
@@ -39,18 +39,15 @@ ASSUMPTIONS = [
     "(run-crash) and skipped - no output exists (proposed repair: fixes/C01-empty-search-corpus.diff)",
 ]
 PARTIAL = {
-    "Output.links_resolve": "full for 28 of the 29 producer rows; the row of default values / decorators / constant values (valXref) "
-                            "is excluded: the object's own linker keeps the page of the module it was defined in "
-                            "(links_resolve_counterexample_value, open finding dead-link:annotation:shortened-for-another-page)",
-    "Output.links_resolve_partial": "all rows, under: the link's shortening context is the page it is written into (for valXref: "
-                                    "the linker remembers the page the object is shown on, valXref_ctxOk)",
+    "Output.url_resolves_iff": "full, with the one shared address spelled out: index.html of a hidden single root is the project's "
+                               "IndexPage (a09aa28); Output.links_resolve is full for all 29 producer rows",
     "Output.inHierarchy": "no theorem: that the 'View In Hierarchy' link (classIndex.html#<fullName>) of every class page has "
                           "its anchor is checked by the correspondence (streams inhierarchy / classanchors) and the direct oracle "
                           "only; the two ways it failed are the `inhierarchy_counterexample_*_old` witnesses",
 }
 EXPLANATION = ("Output model = url/page_object/isVisible/taglink/_writeDocsFor + every link producer with its guard, following the "
                "fixed code (cb98646 superseded duplicates are invisible, aaed9bd taglink guard, 1da744b docstring link context, "
-               "97be2c0 class-index dict, 07382d3 parentMod of moved members). `links_resolve` is proved at full strength for "
+               "97be2c0 class-index dict, 07382d3 parentMod of moved members, 4b6324b root rows, f972163 linker page after reparent, a09aa28 IndexPage when no root is visible, 5201211 root alias). `links_resolve` is proved at full strength for "
                "every producer row; the pre-fix behaviour is kept as `...Old` definitions with `_old` counterexamples.")
 
 
@@ -72,12 +69,19 @@ def overwritten_summary_page(res, target_fn: str) -> bool:
     return any(o["parent"] is None and o["full"] == stem for o in t.objs)
 
 
+def overwritten_cause(res) -> str:
+    """single root: the alias symlink replaced the summary page (fixed by 5201211); several roots: the module's own
+    page has the summary page's file name"""
+    roots = [o for o in res["truth"].objs if o["parent"] is None]
+    return "summary-page-overwritten" if len(roots) == 1 else "summary-page-name-taken-by-root-module"
+
+
 def classify(res, fn: str, prod: str, href: str, label, why: str) -> str:
     t: oc.Truth = res["truth"]
     name = oc.PRODUCER_NAMES.get(prod, prod)
     target_fn = oc.unquote(href.split("#")[0]) or fn
     if overwritten_summary_page(res, target_fn):
-        return "dead-link:%s:summary-page-overwritten" % name
+        return "dead-link:%s:%s" % (name, overwritten_cause(res))
     if prod == "alldocs":
         name = "all-documents"
     if prod == "inhierarchy":
@@ -122,7 +126,7 @@ def oracle(ctx: Ctx, res) -> None:
                 sig = "dead-link:template:" + why
                 roots = [o for o in t.objs if o["parent"] is None]
                 if overwritten_summary_page(res, oc.unquote(v.split("#")[0]) or fn):
-                    sig = "dead-link:template:summary-page-overwritten"
+                    sig = "dead-link:template:" + overwritten_cause(res)
                 elif v.split("#")[0] == "index.html" and why == "no-file" and len(roots) == 1 and not roots[0]["visible"]:
                     # with a single root, index.html is the root's page: a hidden root leaves none
                     sig = "dead-link:template:index-missing-single-root-hidden"
